@@ -5,7 +5,7 @@ Invariants of the server protocol model, each proved over the transition classif
 -/
 namespace A2Verif.Srv
 
-variable (an : Text → Option Diags)
+variable (an : Nat → Text → Option Diags)
 
 /-! ### runs -/
 
@@ -39,12 +39,12 @@ theorem run_induct {P : State → Prop} {ok : Event → Prop}
 is exactly what that job's own document yields. -/
 structure Inv (s : State) : Prop where
   split : ∃ pre, s.launched = pre ++ qdocs s.queue ∧ s.published.Sublist (pre.filterMap (pubOf an))
-  res : ∀ j ∈ s.queue, ∀ d, j.st = .done (some d) → an j.doc.text = some d
+  res : ∀ j ∈ s.queue, ∀ d, j.st = .done (some d) → an j.id j.doc.text = some d
 
 theorem Inv.init : Inv an init :=
   { split := ⟨[], by simp [Srv.init, qdocs], by simp [Srv.init]⟩, res := by simp [Srv.init] }
 
-theorem pubsOf_cases (j : Job) (h : ∀ d, j.st = .done (some d) → an j.doc.text = some d) :
+theorem pubsOf_cases (j : Job) (h : ∀ d, j.st = .done (some d) → an j.id j.doc.text = some d) :
     (pubsOf j = [] ) ∨ (∃ p, pubsOf j = [p] ∧ pubOf an (j.id, j.doc) = some p) := by
   unfold pubsOf
   split
@@ -56,15 +56,15 @@ theorem pubsOf_cases (j : Job) (h : ∀ d, j.st = .done (some d) → an j.doc.te
 
 theorem Inv.step {s s' : State} {e : Event} (hi : Inv an s) (hs : step an s e = some s') : Inv an s' := by
   obtain ⟨⟨pre, hl, hp⟩, hres⟩ := hi
-  have upd : ∀ id f, Upd s s' id f → (∀ j d, f j = .done (some d) → an j.doc.text = some d) → Inv an s' := by
+  have upd : ∀ id f, Upd s s' id f → (∀ j d, f j = .done (some d) → an j.id j.doc.text = some d) → Inv an s' := by
     intro id f hu hf
     refine ⟨⟨pre, ?_, ?_⟩, ?_⟩
     · rw [hu.launched, hu.queue, qdocs_updSt]; exact hl
     · rw [hu.published]; exact hp
     · intro j' hj' d hd
       rw [hu.queue] at hj'
-      obtain ⟨j, hj, _, hdoc, _, hcase⟩ := mem_updSt hj'
-      rw [hdoc]
+      obtain ⟨j, hj, hid, hdoc, _, hcase⟩ := mem_updSt hj'
+      rw [hdoc, hid]
       rcases hcase with ⟨_, hst⟩ | ⟨_, hst⟩
       · exact hf j d (hst ▸ hd)
       · exact hres j hj d (hst ▸ hd)
@@ -107,7 +107,7 @@ theorem Inv.run {s s' : State} {evs : List Event} (hi : Inv an s) (hr : run an s
 structure Clean (s : State) : Prop where
   split : ∃ pre, s.launched = pre ++ qdocs s.queue ∧ s.published = pre.filterMap (pubOf an)
   lock : s.lock ≠ .poisoned
-  res : ∀ j ∈ s.queue, j.st ≠ .dead ∧ ∀ r, j.st = .done r → r = an j.doc.text
+  res : ∀ j ∈ s.queue, j.st ≠ .dead ∧ ∀ r, j.st = .done r → r = an j.id j.doc.text
 
 theorem Clean.init : Clean an init :=
   { split := ⟨[], by simp [Srv.init, qdocs], by simp [Srv.init]⟩, lock := by simp [Srv.init],
@@ -124,15 +124,15 @@ theorem Clean.step {s s' : State} {e : Event} (hnd : notDie e) (hi : Clean an s)
     (hs : step an s e = some s') : Clean an s' := by
   obtain ⟨⟨pre, hl, hp⟩, hlock, hres⟩ := hi
   have upd : ∀ id f, Upd s s' id f → s'.lock ≠ .poisoned →
-      (∀ j, f j ≠ .dead ∧ ∀ r, f j = .done r → r = an j.doc.text) → Clean an s' := by
+      (∀ j, f j ≠ .dead ∧ ∀ r, f j = .done r → r = an j.id j.doc.text) → Clean an s' := by
     intro id f hu hk hf
     refine ⟨⟨pre, ?_, ?_⟩, hk, ?_⟩
     · rw [hu.launched, hu.queue, qdocs_updSt]; exact hl
     · rw [hu.published]; exact hp
     · intro j' hj'
       rw [hu.queue] at hj'
-      obtain ⟨j, hj, _, hdoc, _, hcase⟩ := mem_updSt hj'
-      rw [hdoc]
+      obtain ⟨j, hj, hid, hdoc, _, hcase⟩ := mem_updSt hj'
+      rw [hdoc, hid]
       rcases hcase with ⟨_, hst⟩ | ⟨_, hst⟩
       · rw [hst]; exact hf j
       · rw [hst]; exact hres j hj
